@@ -1,0 +1,9 @@
+//go:build !verif
+// +build !verif
+
+package utility
+
+import "time"
+
+// simTime is the simulated-clock seam; it is only active under the verif build tag.
+func simTime() (time.Time, bool) { return time.Time{}, false }
